@@ -722,13 +722,46 @@ func toLower(s string) String {
 	return unicodeStringFromRunes(r)
 }
 
+// mapWellFormed applies f to every maximal stretch of s that is well-formed UTF-16 and copies the lone surrogates
+// between the stretches as they are: a Go string cannot hold a lone surrogate (String() turns it into U+FFFD), and a
+// string operation has to preserve them.
+func (s unicodeString) mapWellFormed(f func(string) string) String {
+	u := s[1:]
+	var sb StringBuilder
+	start := 0
+	for i := 0; i < len(u); i++ {
+		c := u[i]
+		if c < 0xD800 || c > 0xDFFF {
+			continue
+		}
+		if c < 0xDC00 && i+1 < len(u) && u[i+1] >= 0xDC00 && u[i+1] <= 0xDFFF {
+			i++ // a surrogate pair
+			continue
+		}
+		if i > start {
+			sb.WriteUTF8String(f(string(utf16.Decode(u[start:i]))))
+		}
+		sb.WriteRune(rune(c))
+		start = i + 1
+	}
+	if start == 0 {
+		return newStringValue(f(s.String()))
+	}
+	if len(u) > start {
+		sb.WriteUTF8String(f(string(utf16.Decode(u[start:]))))
+	}
+	return sb.String()
+}
+
 func (s unicodeString) toLower() String {
-	return toLower(s.String())
+	return s.mapWellFormed(func(ss string) string {
+		return toLower(ss).String()
+	})
 }
 
 func (s unicodeString) toUpper() String {
 	caser := cases.Upper(language.Und)
-	return newStringValue(caser.String(s.String()))
+	return s.mapWellFormed(caser.String)
 }
 
 func (s unicodeString) Export() interface{} {
